@@ -624,6 +624,9 @@ structure Input where
   bibTexts : List Str
   citations : List Str
   minCrossrefs : Int := 2
+  /-- `bib_format` override: the entries (in file order) and preamble another reader (YAML,
+  BibTeXML) delivers; they go through the same `add_entry` (wanted-set filtering, first key wins) -/
+  alt : Option (List (Str × Bib.Entry) × List Str) := none
 
 def personsToStr (ps : List (Str × List Person)) : CIDict (List Str) :=
   CIDict.ofPairs (ps.map fun r => (r.1, r.2.map Person.toStr))
@@ -687,7 +690,12 @@ def runCommand (fuel : Nat) (inp : Input) (c : Command) (s : St) : Except IErr S
     let st0 : Bib.St :=
       { rest := [], macros := CIDict.ofPairs s.macros,
         db := { wanted := some (CISet.ofList s.citations), citations := CISet.ofList s.citations }, roles := [] }
-    let r := readAll inp.bibTexts st0
+    let r : Bib.St × Option Bib.Err :=
+      match inp.alt with
+      | none => readAll inp.bibTexts st0
+      | some (es, pre) =>
+        (es.foldl (fun st ke => match Bib.addEntry st ke.1 ke.2 with | .ok _ st => st | .fail _ st => st)
+          { st0 with db := { st0.db with preamble := pre } }, none)
     let db := convertDb r.1.db
     let x := BibData.addExtraCitations db s.citations inp.minCrossrefs
     let m := BibData.removeMissing db x.1
